@@ -212,6 +212,11 @@ def judge_input(bounds, prec, out):
 
 
 def spell(bounds, prec, how):
+    if how == 3:   # tuples
+        return tuple(tuple(b) for b in bounds), tuple(prec)
+    if how == 4:   # integer-typed entries where the values are whole numbers
+        f = lambda v: int(v) if float(v).is_integer() and abs(v) < 2**53 else v  # noqa: E731
+        return [[f(v) for v in b] for b in bounds], [f(v) for v in prec]
     if how == 0:
         return bounds, prec
     if how == 1:
@@ -237,13 +242,13 @@ def run_case(desc, ctx):
             judge_input([lo, up], rng.choice([0.0, 0.1, 1.0, 100.0], size=dp).tolist(), out)
     elif kind == "lattice1":
         for t in TRIPLES:
-            for how in (0, 1, 2):
+            for how in (0, 1, 2, 3, 4):
                 b, p = spell([[t[0]], [t[1]]], [t[2]], how)
                 judge_input(b, p, out)
     elif kind == "lattice2":
         a = TRIPLES[desc["first"]]
         for k, b2 in enumerate(TRIPLES):
-            b, p = spell([[a[0], b2[0]], [a[1], b2[1]]], [a[2], b2[2]], k % 3)
+            b, p = spell([[a[0], b2[0]], [a[1], b2[1]]], [a[2], b2[2]], k % 5)
             judge_input(b, p, out)
     elif kind == "lattice3":
         a, b2 = TRIPLES[desc["first"]], TRIPLES[desc["second"]]
@@ -277,7 +282,7 @@ def run_case(desc, ctx):
                 if not (u0 > l0 and p <= u0 - l0):
                     u0 = l0 + 2 * p
                 lo.append(l0), up.append(u0), pr.append(p)
-            b, p = spell([lo, up], pr, int(rng.integers(0, 3)))
+            b, p = spell([lo, up], pr, int(rng.integers(0, 5)))
             judge_input(b, p, out)
     if desc.get("i", 0) == 0 and kind in ("random", "lattice1"):
         out["sample"] = {"kind": kind, "evals": out["evals"], "first_nontrivial": out["nontrivial"][:2]}
